@@ -178,6 +178,10 @@ theorem take_identity_sound (n : Nat) (index : List Int) (h : takeIsIdentity n i
   Dask.Take.takeIsIdentity_sound n index h
 
 open Dask.Take in
+/-- non-vacuity of the hypothesis: the full arange takes the shortcut, a permutation of it does not -/
+example : takeIsIdentity 3 [0, 1, 2] = some true ∧ takeIsIdentity 3 [0, 2, 1] = some false := by decide
+
+open Dask.Take in
 /-- …and always then. -/
 theorem take_identity_complete (n : Nat) (hn : 0 < n) :
     takeIsIdentity n ((List.range n).map (fun (i : Nat) => (i : Int))) = some true :=
